@@ -363,6 +363,18 @@ impl Session {
                     Err(e) => format!("open-{}", err_class(&e)),
                 }
             }
+            b'N' => {
+                // close the database handle while iterators created from it are still alive
+                let r = std::panic::catch_unwind(std::panic::AssertUnwindSafe(|| {
+                    self.snaps.clear();
+                    self.db.take();
+                }));
+                self.iters.clear();
+                match r {
+                    Ok(()) => "ok".to_string(),
+                    Err(_) => "close-panicked".to_string(),
+                }
+            }
             b'W' => {
                 if self.quiesce() {
                     "ok".to_string()
